@@ -156,10 +156,12 @@ DevBadValue ==
 
 (* replace element k by any other token *)
 DevReplace ==
-  /\ CanDeviate /\ First /\ IsMajor /\ Fam = "all"
+  /\ CanDeviate /\ First /\ IsMajor /\ Fam \in {"all", "defects"}
   /\ \E k \in 1..Len(els) :
        LET m == MetricAt(inp.ver, els[k])
-           toks == AllLegal \cup (IF m # NoMetric THEN LocalJunk(inp.ver, m) ELSE {})
+           \* family "defects": the legal elements of the version itself (every metric at every position)
+           toks == IF Fam = "defects" THEN LegalElems(inp.ver)
+                   ELSE AllLegal \cup (IF m # NoMetric THEN LocalJunk(inp.ver, m) ELSE {})
        IN  \E t \in toks :
              /\ t # els[k]
              /\ LET tm == ElemMetric(inp.ver, t)
